@@ -14,7 +14,9 @@ def run(ctx):
                 "failing writer at every write-call index and short writes at sampled byte offsets. Every run is an event "
                 "(kind, offset, fault delivered?, outcome, result equal to the unharmed run?) that TLC validates against "
                 "Faults!RunOK: no panic; delivered fault => error; undelivered => unharmed result; truncated font / CMap => "
-                "error or the complete result.")
+                "error or the complete result. Two inputs the reader rejects take part in the fault sweep (a clear-text font "
+                "that closes its file at top level, a charstring with a stray pop): a delivered fault must surface, an "
+                "undelivered one must leave the very same error.")
     ctx.assumptions = ["any non-nil error counts as surfacing the fault (the injected error need not be wrapped)",
                        "truncation is judged for Type 1 fonts and CMap files only, as the property states"]
     d = ctx.specdir()
